@@ -152,6 +152,39 @@ def q10a(c_wd: int, c_t: int, c_kw: int, u_lvl: int, other: int) -> str:
     return q.run(_q10a, (c_wd, c_t, c_kw, u_lvl, other))
 
 
+def _stops_at_first_failure(cmds):
+    """The commands gwf puts before the spec leave bash's errexit option on (`set -e`, `set -eu`, `set -o errexit`, ...)."""
+    on = False
+    for c in cmds:
+        w = c.split()
+        if not w or w[0] != "set":
+            continue
+        k = 1
+        while k < len(w):
+            a = w[k]
+            if a in ("-o", "+o") and k + 1 < len(w):
+                if w[k + 1] == "errexit":
+                    on = (a == "-o")
+                k += 2
+                continue
+            if a.startswith("-") and "e" in a[1:] and not a.startswith("--"):
+                on = True
+            if a.startswith("+") and "e" in a[1:]:
+                on = False
+            k += 1
+    return on
+
+
+def _preamble_ok(cmds, wd):
+    """cd into the working directory first (any correct quoting), then only exports / set; errexit on at the end."""
+    if len(cmds) < 2 or shell.shell_words(cmds[0]) != ["cd", wd]:
+        return False
+    for c in cmds[1:]:
+        if not (c.startswith("export ") or c.split()[0] == "set"):
+            return False
+    return _stops_at_first_failure(cmds[1:])
+
+
 # ---------------------------------------------------------------- Q10b spec verbatim, cd and set -e before it
 def _ops(be, log_mode="full"):
     if be == "slurm":
@@ -178,11 +211,8 @@ def _q10b(spec):
     head = script[:len(script) - len(tail)]
     lines = head.split("\n")
     cmds = [ln for ln in lines if ln != "" and not ln.startswith("#")]
-    if len(cmds) < 2 or cmds[0] != "cd " + ROOT or cmds[len(cmds) - 1] != "set -e":
-        return "commands before the spec are %r" % (cmds,)
-    for c in cmds[1:len(cmds) - 1]:
-        if not c.startswith("export "):
-            return "unexpected command %r before the spec" % (c,)
+    if not _preamble_ok(cmds, ROOT):
+        return "commands before the spec are %r (expected: cd into the working directory, then the option that stops at the first failing command)" % (cmds,)
     return ""
 
 
@@ -212,8 +242,8 @@ def _q10g(k):
         return "spec %r does not end the %s script verbatim; the script ends %r" % (spec, be, script[-(len(tail) + 30):])
     head = script[:len(script) - len(tail)]
     cmds = [ln for ln in head.split("\n") if ln != "" and not ln.startswith("#")]
-    if len(cmds) < 2 or not cmds[0].startswith("cd ") or cmds[-1] != "set -e":
-        return "commands before the spec are %r" % (cmds,)
+    if not _preamble_ok(cmds, ROOT):
+        return "commands before the spec are %r (expected: cd into the working directory, then the option that stops at the first failing command)" % (cmds,)
     # directives of the script are gwf's own: the spec's look-alike lines come after the first command
     own = [d for d in shell.directives(be, head)]
     if any("99" in d for d in own):
